@@ -208,7 +208,23 @@ func runCase(r *rand.Rand, g Graph, caseID string, enc *json.Encoder, b budget) 
 			}
 		}
 	}
-	// drain: a fair schedule in which every handler returns ok
+	return drain(e)
+}
+
+// drain: a fair schedule in which every handler returns ok; emits "Stuck" if the changes do not settle
+func drain(e *Engine) error {
+	g := e.g
+	quiescent := func(p proj) bool {
+		if len(p.Running) > 0 {
+			return false
+		}
+		for _, s := range p.Status {
+			if s != "Done" && s != "Undone" && s != "Hold" && s != "Error" {
+				return false
+			}
+		}
+		return true
+	}
 	for i := 0; i < 30+15*g.N; i++ {
 		p := e.project()
 		if quiescent(p) {
@@ -280,6 +296,16 @@ func TestVerifEngine(t *testing.T) {
 		n, nc := sh[0], sh[1]
 		f, enc := openOut(filepath.Join(dir, fmt.Sprintf("trace_n%d_c%d.ndjson", n, nc)))
 		r := rand.New(rand.NewSource(seed*1000003 + int64(n*10+nc)))
+		if n == 3 && nc == 1 {
+			for _, d := range directedCases {
+				id := "directed-" + d.name
+				if err := runDirected(d, id, enc); err != nil {
+					f.Close()
+					t.Fatalf("case %s: %v", id, err)
+				}
+				total++
+			}
+		}
 		for k := 0; k < cases; k++ {
 			g := randGraph(r, n, nc)
 			b := budget{fail: r.Intn(3), retry: r.Intn(3), wait: r.Intn(2), restart: r.Intn(2), abort: 0, stop: 0}
